@@ -54,7 +54,7 @@ Proof. induction l; intros [|h] a0 b H; simpl in *; auto. f_equal. apply IHl. au
 Section Refine.
   Variable cfg : fscfg.
   Hypothesis base_ok : path_ok (f_base cfg).
-  Hypothesis enc_inj : forall k k', enc_key cfg k = enc_key cfg k' -> k = k'.
+  Hypothesis enc_inj : forall k k', wfb k -> wfb k' -> enc_key cfg k = enc_key cfg k' -> k = k'.
 
   (* reads on a good store *)
   Lemma read_resolve : forall f k d, good cfg f -> storable cfg k d ->
@@ -113,7 +113,7 @@ Section Refine.
   Qed.
 
   Lemma storable_path : forall k d, storable cfg k d -> path_for_key cfg k = Some d.
-  Proof. intros k d [_ [[_ [_ E]] _]]. auto. Qed.
+  Proof. intros k d [_ [[_ [_ [_ E]]] _]]. auto. Qed.
 
   Lemma rel_put : forall st s kind k d chunks st' ob log,
     rel st s -> storable cfg k d -> (fs_ctr st < 2 ^ 254)%N ->
